@@ -32,7 +32,11 @@ RULE = ("kind=rank: 0-8 candidates + base; dummy models (any parameter count, ra
         "number / (p_forward, p_backward) pair; penalties none or multiples of 1/4; parent maps (random earlier model "
         "or base). kind=lrt: cutoff/test/p_value/best_of_many on dummy models. kind=crit: calculate_aic/bic and "
         "_categorize_parameters on every pool model. kind=stats: bootstrap / cdd / shrinkage statistics on <= 50 "
-        "replicate vectors of short decimals. non-trivial = at least 2 models with non-NaN criterion (rank), any (other "
+        "replicate vectors of short decimals, and delta-method standard errors of random expressions (+ - * / ^ sqrt log exp "
+        "over 1-4 of 2-6 parameters) with exact covariance S(LL^T+D)S; parameter labels are pheno-style, NONMEM-style "
+        "(THETA(1), OMEGA(1,1)) or generic names in model order or an arbitrary permutation (lexically sorted only by chance), "
+        "and the label order of the individual inputs (replicate Series, original estimates, base estimate, covariance "
+        "index vs columns, eta columns, individual matrices) is permuted independently in a fraction of the cases. non-trivial = at least 2 models with non-NaN criterion (rank), any (other "
         "kinds); distinct = distinct case JSON")
 TRUSTED = [
     "Lean 4.33 kernel; axioms propext, Quot.sound, Classical.choice only (audited per theorem each run)",
